@@ -252,6 +252,34 @@ CLAIMED["C08"] = {
             "finding.",
 }
 
+CLAIMED["C04"] = {
+    "text": "PARTIAL (accessor clause only; NO decoder entry point is "
+            "decided): the item-count, iteration and bound accessors of "
+            "resource blocks are panic-free on every value the public "
+            "constructors produce -- AsBlock/AsRange::asn_count for every "
+            "pair lo <= hi of u32 including AS0-AS4294967295 (the overflow "
+            "defect named in the property's anchors was found here and "
+            "fixed), AsBlocks::all().asn_count(), the count of canonical "
+            "two-block sets, AsBlock iteration for blocks of up to 4 numbers "
+            "anywhere including the top of the number space, the host-bit "
+            "masks Addr::to_min/to_max for every u128 and every u8 length, "
+            "Prefix bounds for every length 0..=128, and "
+            "Prefix::from_bit_string (the value handed over by the IP "
+            "resource and ROA decoders) for BIT STRINGs of 0, 1, 2, 16, 17 "
+            "octets with arbitrary content and unused-bit counts.",
+    "ref": "§3 C04",
+    "note": "Hook: AsBlocks::verif_from_vec_unchecked (canonical operands). "
+            "NOT decided: every decoding entry point of the statement "
+            "(certificate, CRL, manifest, ROA, ASPA, RTA, TAL, key, CSR, "
+            "identity certificate, signed message): those carrying a "
+            "certificate are behind a Kani internal compiler error in the "
+            "IP-resources decoder; a single 8-byte AsBlock::take_opt_from "
+            "with two symbolic octets already runs the solver out of 12 GB "
+            "(harness kept '@tier off'). Panic-freedom of the time and "
+            "serial-number decoders within their bounds is part of C17's "
+            "harnesses. Time and memory bounds are not addressed.",
+}
+
 NOT_APPLICABLE = {
     "C01": "needs a Cert value: decoding one hits a Kani 0.68 internal "
            "compiler error (IP-resources decoder), constructing one needs a "
@@ -259,10 +287,6 @@ NOT_APPLICABLE = {
            "reachable building block (AsBlocks::verify_issued) ran out of "
            "14 GB. No solver query for this property finished, so nothing "
            "is claimed (DESIGN.md section 3)",
-    "C04": "every decoder entry point carrying a certificate is behind the "
-           "Kani ICE on the IP-resources decoder; the remaining bcder "
-           "decoders cost 1-10 min of solver time per handful of symbolic "
-           "bytes, which does not amount to a claim about arbitrary input",
     "C05": "builders produce CMS objects / certificates whose decoders "
            "cannot be compiled by Kani (ICE) and whose signing is aws-lc "
            "FFI; the one certificate-free piece (RoaBuilder::to_attestation "
